@@ -4,13 +4,14 @@ Exit 0: the property held on everything explored (KNOWN-FINDING lines allowed)
 Exit 1: a line "VIOLATION property=<id> replay=<path>[ no-failing-input-found]" was printed
 Exit 2: harness error (build failure not attributable to /repo, driver crash, timeout)
 """
-import importlib, json, os, re, sys, time, traceback
+import importlib, json, os, re, signal, sys, time, traceback
 
 HERE = os.path.dirname(os.path.abspath(__file__))
 sys.path.insert(0, HERE)
 
 import core  # noqa: E402
 import leanstage  # noqa: E402
+import impl  # noqa: E402
 
 
 def finding_matches(f, v):
@@ -84,10 +85,58 @@ def main(argv):
                 rep.known.append(f)
             else:
                 print("NOTE: known finding %s does not reproduce in the recorded way (%s)" % (f["id"], still))
-        mod.run(ctx, 1)
+        impl.HISTORY["every"] = getattr(mod, "HISTORY_EVERY", 7)
+        # budget of the exploration: a change to /repo that makes the code blow up (ever-growing regexes, say) must end
+        # the run with what was found so far, not hang it
+        limit_s = int(os.environ.get("VERIF_TIME_LIMIT", "900" if tier == "quick" else "10800"))
+        try:
+            import resource
+            resource.setrlimit(resource.RLIMIT_AS, (12 << 30, 12 << 30))
+        except Exception:  # noqa: BLE001
+            pass
+
+        t_run = [time.time()]
+        soft_s = 150 if tier == "quick" else 1800
+
+        def on_alarm(signum, frame):
+            el = time.time() - t_run[0]
+            if el >= limit_s:
+                raise core.Enough("time limit of %d s reached" % limit_s)
+            if rep.violations and el >= soft_s:
+                raise core.Enough("a failing input is in hand and the run has become slow")
+        signal.signal(signal.SIGALRM, on_alarm)
+        signal.setitimer(signal.ITIMER_REAL, 10, 10)
+        stopped = None
+        try:
+            mod.run(ctx, 1)
+        except core.Enough as e:
+            stopped = str(e)
+        except MemoryError:
+            stopped = "memory limit reached inside the implementation"
+        signal.setitimer(signal.ITIMER_REAL, 0)
+        if stopped:
+            print("NOTE: exploration ended early: " + stopped)
+            rep.dist["exploration-ended-early:" + stopped.split(" of ")[0][:60]] += 1
+            if not (rep.violations or rep.disagreements):
+                print("HARNESS-ERROR: budget used up before anything was found (%s)" % stopped)
+                return 2
+        for mm in impl.HISTORY["repeat_mismatches"][:3]:
+            rep.violate("second-call-on-the-same-object-differs", {"rule": mm["rule"], "listing": mm["listing"]},
+                        {"result": mm["first_call"], "mode": [mm["mode"], mm["address_only"], mm["return"]]},
+                        {"result_of_second_perform_matching": mm["second_call_on_the_same_object"]}, model_agrees_with_spec=None)
+        rep.dist["history:prelude-operations"] += impl.HISTORY["preludes"]
+        rep.dist["history:operations-repeated-on-the-same-object"] += impl.HISTORY["repeats"]
         # a broken obligation or tie: search harder for a concrete failing input
-        if (lean["broken"] or rep.disagreements) and not rep.violations:
-            mod.run(ctx, getattr(mod, "SEARCH_FACTOR", 4))
+        if (lean["broken"] or rep.disagreements) and not rep.violations and not stopped:
+            t_run[0] = time.time()
+            signal.setitimer(signal.ITIMER_REAL, 10, 10)
+            try:
+                mod.run(ctx, getattr(mod, "SEARCH_FACTOR", 4))
+            except core.Enough as e:
+                print("NOTE: search ended early: " + str(e))
+            except MemoryError:
+                print("NOTE: search ended early: memory limit")
+            signal.setitimer(signal.ITIMER_REAL, 0)
         new_violations = []
         for v in rep.violations:
             covering = [f for f in findings if f.get("kind") == "finding" and finding_matches(f, v)]
